@@ -243,4 +243,9 @@ def rule_escape(repo: Repo, rid: str = "C07.escape", floor: int = 2) -> RuleResu
 
 def rules(repo: Repo, tier: str) -> List[RuleResult]:
     from . import c14, c19
-    return [rule_write(repo), rule_global(repo), rule_escape(repo), c14.rule_copy(repo, "C07.copyfresh"), c19.rule_cache(repo, "C07.cache")]
+    return [rule_write(repo), rule_global(repo), rule_escape(repo), c14.rule_copy(repo, "C07.copyfresh"), c19.rule_cache(repo, "C07.cache"), _c20().rule_freshleaf(repo, "C07.freshleaf")]
+
+
+def _c20():
+    from . import c20
+    return c20
